@@ -79,6 +79,7 @@ type Trans struct {
 	underContract map[string]bool
 	reqOld   *State
 	pendingFinals map[int]string
+	pendingMaintains []func(State) string
 }
 
 func NewTrans(P *Prog) *Trans {
